@@ -63,3 +63,29 @@ macro_rules! vassert {
         assert!($c, concat!("PROP: ", $msg))
     };
 }
+
+/// A harness in which the twelve Comm-B register readers other than BDS 0,5 (and BDS 6,5) are the contract
+/// stubs of selstubs.rs (DESIGN 7.2): used by the harnesses that decide the glue of DF20/DF21DataSelector.
+#[macro_export]
+macro_rules! with_selector_stubs {
+    ($($h:tt)*) => {
+        $crate::harness! {
+            #[kani::unwind(20)]
+            #[kani::stub(alloc::fmt::format, crate::stubs::fmt_stub)]
+            #[kani::stub(<rs1090::decode::bds::bds10::DataLinkCapability as core::convert::TryFrom<&[u8]>>::try_from, crate::selstubs::s_bds10)]
+            #[kani::stub(<rs1090::decode::bds::bds17::CommonUsageGICBCapabilityReport as core::convert::TryFrom<&[u8]>>::try_from, crate::selstubs::s_bds17)]
+            #[kani::stub(<rs1090::decode::bds::bds18::GICBCapabilityReportPart1 as core::convert::TryFrom<&[u8]>>::try_from, crate::selstubs::s_bds18)]
+            #[kani::stub(<rs1090::decode::bds::bds19::GICBCapabilityReportPart2 as core::convert::TryFrom<&[u8]>>::try_from, crate::selstubs::s_bds19)]
+            #[kani::stub(<rs1090::decode::bds::bds20::AircraftIdentification as core::convert::TryFrom<&[u8]>>::try_from, crate::selstubs::s_bds20)]
+            #[kani::stub(<rs1090::decode::bds::bds21::AircraftAndAirlineRegistrationMarkings as core::convert::TryFrom<&[u8]>>::try_from, crate::selstubs::s_bds21)]
+            #[kani::stub(<rs1090::decode::bds::bds30::ACASResolutionAdvisory as core::convert::TryFrom<&[u8]>>::try_from, crate::selstubs::s_bds30)]
+            #[kani::stub(<rs1090::decode::bds::bds40::SelectedVerticalIntention as core::convert::TryFrom<&[u8]>>::try_from, crate::selstubs::s_bds40)]
+            #[kani::stub(<rs1090::decode::bds::bds44::MeteorologicalRoutineAirReport as core::convert::TryFrom<&[u8]>>::try_from, crate::selstubs::s_bds44)]
+            #[kani::stub(<rs1090::decode::bds::bds45::MeteorologicalHazardReport as core::convert::TryFrom<&[u8]>>::try_from, crate::selstubs::s_bds45)]
+            #[kani::stub(<rs1090::decode::bds::bds50::TrackAndTurnReport as core::convert::TryFrom<&[u8]>>::try_from, crate::selstubs::s_bds50)]
+            #[kani::stub(<rs1090::decode::bds::bds60::HeadingAndSpeedReport as core::convert::TryFrom<&[u8]>>::try_from, crate::selstubs::s_bds60)]
+            #[kani::stub(<rs1090::decode::bds::bds65::AircraftOperationStatus as core::convert::TryFrom<&[u8]>>::try_from, crate::selstubs::s_bds65)]
+            $($h)*
+        }
+    };
+}
